@@ -1089,3 +1089,187 @@ Proof.
   destruct (tx_loop_hinv g (log s) _ _ _ _ _ _ _ _ _ H0 (i_keys _ _ I) T) as (A & B).
   injection F as <- _. autorewrite with st. rewrite B. eapply HInvL_ext; [|exact A]. hcore_eq.
 Qed.
+
+(** After a rejection (phase 1) the map holds no stream state at all. *)
+Lemma phase1_no_streams s g k x :
+  Inv s g -> g.(g_phase) = 1 -> lookup k s.(send) = Some (Some x) -> False.
+Proof.
+  intros I Hp Lk.
+  destruct (i_early _ _ I ltac:(lia)) as (M1 & _ & _ & M4).
+  destruct (M4 Hp) as (N1 & N2 & _).
+  destruct (i_keys _ _ I k (lookup_in_keys _ _ _ Lk)) as (K2 & K3).
+  destruct (Z.eq_dec (id_init k) (side s)) as [El|El].
+  - specialize (K3 El). unfold get_next, id_index in K3. destr_if; lia.
+  - specialize (M1 _ _ Lk El). discriminate.
+Qed.
+
+Lemma reject_hinv s s' g' :
+  do_reject s = Some s' -> Inv s' g' -> g'.(g_phase) = 1 -> HInv s' g'.
+Proof.
+  intros R I Hp. unfold HInv.
+  assert (Hlog : forall k f, ~ live (log s') k f).
+  { unfold do_reject, reject_with in R.
+    destruct (remove_locals _ _ _ _) as [m1|]; [|discriminate].
+    destruct (remove_locals _ _ _ m1) as [m2|]; [|discriminate].
+    injection R as <-. autorewrite with st. intros k f. apply live_dead. }
+  constructor.
+  - intros id x Lk. destruct (phase1_no_streams _ _ _ _ I Hp Lk).
+  - intros k id a b fin Hl. destruct (Hlog _ _ Hl).
+  - destruct (i_early _ _ I ltac:(lia)) as (_ & _ & _ & M4). destruct (M4 Hp) as (_ & _ & _ & _ & N5 & _).
+    rewrite N5. unfold usum. symmetry. apply msum_zero. intros k v Hin.
+    destruct v as [x|]; [|reflexivity]. exfalso.
+    eapply (phase1_no_streams s' g' k x I Hp). apply In_lookup; [exact (i_nodup _ _ I)|exact Hin].
+  - intros _ id x Lk. destruct (phase1_no_streams _ _ _ _ I Hp Lk).
+Qed.
+
+(** [set_params] in the early phases does not touch the stream map. *)
+Lemma params_hinv s g p g' :
+  HInv s g -> Inv s g -> g.(g_phase) <> 2 -> g'.(g_phase) = 2 -> HInv (do_set_params p s) g'.
+Proof.
+  intros H I Hp Hp'. unfold HInv in *.
+  destruct (i_early _ _ I Hp) as (M1 & _).
+  pose proof (set_remote_limits_id (side s) (p_sd_bidi_local p) _ (i_nodup _ _ I) M1) as Hrl.
+  assert (Hl : log (do_set_params p s) = log s) by reflexivity.
+  rewrite Hl. eapply hinv_ghost; [exact Hp'|].
+  eapply HInvL_ext; [|exact H]. unfold hcore. autorewrite with sp. rewrite Hrl. reflexivity.
+Qed.
+
+(** [retransmit_all_for_0rtt] in the 0-RTT phase. *)
+Definition EarlyBuf (y : Send) : Prop :=
+  y.(s_acks) = [] /\ y.(s_retx) = [] /\ y.(s_ulen) = y.(s_offset) /\ 0 <= y.(s_ulen)
+  /\ 0 <= y.(s_unsent) <= y.(s_offset) /\ 0 <= y.(s_state) <= 3.
+
+Definition AllEarly (s : State) : Prop :=
+  forall k y, lookup k s.(send) = Some (Some y) -> EarlyBuf y.
+
+Lemma retry_stream_spec fixed id s s' :
+  retry_stream fixed id s = Some s' -> AllEarly s ->
+  AllEarly s'
+  /\ (forall k, k <> id -> lookup k s'.(send) = lookup k s.(send))
+  /\ (forall y, lookup id s'.(send) = Some (Some y) -> s_unsent y = 0)
+  /\ (lookup id s'.(send) = None <-> lookup id s.(send) = None)
+  /\ usum s'.(send) = usum s.(send)
+  /\ hcore s' = (side s, send s', unacked_data s, next_bi s, next_uni s)
+  /\ log s' = log s /\ keys (send s') = keys (send s).
+Proof.
+  intros R P. unfold retry_stream in R.
+  destruct (lookup id (send s)) as [[x|]|] eqn:Lk.
+  2:{ injection R as <-. split; [exact P|]. rewrite Lk. repeat split; auto; try tauto; try (intros; discriminate); try reflexivity. }
+  2:{ injection R as <-. split; [exact P|]. rewrite Lk. repeat split; auto; try tauto; try (intros; discriminate); try reflexivity. }
+  destruct (P id x Lk) as (X1 & X2 & X3 & X4 & X5 & X6).
+  set (quiet := (s_ulen x =? 0) && negb (s_fin_pending x)) in *.
+  destruct (quiet && negb (fixed && ((s_state x =? 1) || (s_state x =? 2)))) eqn:Q.
+  { injection R as <-. split; [exact P|]. split; [auto|]. split.
+    - intros y Ly. rewrite Lk in Ly. injection Ly as <-.
+      assert (quiet = true) by (destruct quiet; [reflexivity|discriminate]). subst quiet. lia.
+    - rewrite Lk. repeat split; auto; try tauto; try (intros; discriminate); try reflexivity. }
+  set (x1 := if quiet then set_s_fin_pending true x else x) in *.
+  assert (E1 : buf_eq x x1 /\ s_state x1 = s_state x) by (subst x1; destruct quiet; split; sb).
+  destruct E1 as ((Y1 & Y2 & Y3 & Y4 & Y5) & Y6).
+  destruct (s_offset x1 =? s_ulen x1); [|discriminate]. injection R as <-.
+  set (y := set_s_unsent 0 x1) in *.
+  match goal with |- AllEarly (put id y ?t) /\ _ => set (s0 := t) in * end.
+  assert (L0 : lookup id (send s0) = Some (Some x)) by (subst s0; destr_if; unfold push_pending; autorewrite with st; exact Lk).
+  assert (Ls : send s0 = send s) by (subst s0; destr_if; unfold push_pending; autorewrite with st; reflexivity).
+  assert (Ey : EarlyBuf y).
+  { subst y. unfold EarlyBuf. autorewrite with st. rewrite Y4, Y5, Y2, Y1, Y6. repeat split; auto; lia. }
+  split.
+  { intros k z Lz. rewrite lookup_put in Lz. destruct (k =? id).
+    - rewrite L0 in Lz. injection Lz as <-. exact Ey.
+    - rewrite Ls in Lz. eapply P; eauto. }
+  split. { intros k Hk. rewrite lookup_put. destruct (k =? id) eqn:E; [lia|]. rewrite Ls. reflexivity. }
+  split. { intros z Lz. rewrite lookup_put, Z.eqb_refl, L0 in Lz. injection Lz as <-. subst y. autorewrite with st. reflexivity. }
+  split. { rewrite lookup_put, Z.eqb_refl, L0. split; discriminate. }
+  split.
+  { rewrite (usum_put id (Some x) y s0 L0). rewrite Ls. cbn [ucontrib]. subst y. autorewrite with st.
+    rewrite Y6, Y2, Y4. lia. }
+  split. { subst s0. unfold hcore, put. destr_if; unfold push_pending; autorewrite with st; reflexivity. }
+  split. { subst s0. unfold put. destr_if; unfold push_pending; autorewrite with st; reflexivity. }
+  unfold put. autorewrite with st. rewrite keys_update, Ls. reflexivity.
+Qed.
+
+Lemma retry_dir_spec fixed d n : forall s s',
+  retry_dir fixed d n s = Some s' -> AllEarly s -> 0 <= d <= 1 ->
+  AllEarly s'
+  /\ (forall k, (forall i, 0 <= i < Z.of_nat n -> k <> sid 0 d i) -> lookup k s'.(send) = lookup k s.(send))
+  /\ (forall i y, 0 <= i < Z.of_nat n -> lookup (sid 0 d i) s'.(send) = Some (Some y) -> s_unsent y = 0)
+  /\ usum s'.(send) = usum s.(send)
+  /\ side s' = side s /\ unacked_data s' = unacked_data s /\ next_bi s' = next_bi s
+  /\ next_uni s' = next_uni s /\ log s' = log s /\ keys (send s') = keys (send s).
+Proof.
+  induction n as [|n IH]; intros s s' R P Hd; cbn [retry_dir] in R.
+  - injection R as <-. split; [exact P|]. repeat split; auto. intros i y Hi. lia.
+  - destruct (retry_dir fixed d n s) as [s1|] eqn:R1; [|discriminate].
+    destruct (IH _ _ R1 P Hd) as (P1 & A1 & B1 & U1 & E1 & E2 & E3 & E4 & E5 & E6).
+    destruct (retry_stream_spec _ _ _ _ R P1) as (P2 & A2 & B2 & _ & U2 & Hc & E7 & E8).
+    unfold hcore in Hc. injection Hc as C1 C3 C4 C5.
+    split; [exact P2|]. split; [|split; [|repeat split; congruence]].
+    + intros k Hk. rewrite A2 by (apply Hk; lia). apply A1. intros i Hi. apply Hk. lia.
+    + intros i y Hi Ly. destruct (Z.eq_dec i (Z.of_nat n)) as [->|Hn].
+      * apply B2. exact Ly.
+      * rewrite A2 in Ly by (unfold sid; lia). apply (B1 i y); [lia|exact Ly].
+Qed.
+
+Lemma hinv_allearly s g : HInv s g -> g.(g_phase) <> 2 -> AllEarly s.
+Proof.
+  intros H Hp k y Lk. destruct (h_early _ _ _ H Hp k y Lk) as (X1 & X2 & X3).
+  destruct (h_buf _ _ _ H k y Lk) as [A B C D F]. unfold base in *.
+  unfold EarlyBuf. repeat split; auto; lia.
+Qed.
+
+Lemma bufok_dead_early L id y :
+  EarlyBuf y -> s_unsent y = 0 -> BufOK (map (fun _ : option Frame => None) L) id y.
+Proof.
+  intros (X1 & X2 & X3 & X4 & X5 & X6) Hu.
+  constructor; unfold base; try lia.
+  - intros k a b fin Hl. destruct (live_dead _ _ _ Hl).
+  - intros _. constructor; unfold base; rewrite ?X1, ?X2; cbn [W rs_total]; auto.
+    + intros y0 Hc. destruct (covers_nil _ Hc).
+    + intros y0 Hc. destruct (covers_nil _ Hc).
+    + intros k a b fin Hl. destruct (live_dead _ _ _ Hl).
+    + intros y0 Hc. destruct (covers_nil _ Hc).
+    + intros k a b fin y0 Hl. destruct (live_dead _ _ _ Hl).
+    + intros k a b fin y0 Hl. destruct (live_dead _ _ _ Hl).
+    + intros k k' a b fin a' b' fin' y0 Hl. destruct (live_dead _ _ _ Hl).
+    + rewrite flen_dead. lia.
+Qed.
+
+Lemma retry_hinv s g s' :
+  HInv s g -> Inv s g -> g.(g_phase) = 0 -> s.(side) = 0 -> do_retry s = Some s' -> HInv s' g.
+Proof.
+  intros H I Hp Hsd R. unfold do_retry, retry_with in R.
+  destruct (retry_dir RETRY_FIXED 0 (Z.to_nat (next_bi s)) s) as [s1|] eqn:R1; [|discriminate].
+  destruct (retry_dir RETRY_FIXED 1 (Z.to_nat (next_uni s1)) s1) as [s2|] eqn:R2; [|discriminate].
+  injection R as <-.
+  pose proof (hinv_allearly _ _ H ltac:(lia)) as P0.
+  destruct (retry_dir_spec _ _ _ _ _ R1 P0 ltac:(lia)) as (P1 & A1 & B1 & U1 & E1 & E2 & E3 & E4 & E5 & E6).
+  destruct (retry_dir_spec _ _ _ _ _ R2 P1 ltac:(lia)) as (P2 & A2 & B2 & U2 & F1 & F2 & F3 & F4 & F5 & F6).
+  destruct (i_early _ _ I ltac:(lia)) as (M1 & _).
+  destruct (i_cnt _ _ I 0 ltac:(lia)) as (N0 & _). destruct (i_cnt _ _ I 1 ltac:(lia)) as (N1 & _).
+  unfold get_next in N0, N1. red_eqb_in N0. red_eqb_in N1. cbv iota in N0, N1.
+  (* every stream state of the result belongs to a visited local stream *)
+  assert (Hz : forall k y, lookup k (send s2) = Some (Some y) -> EarlyBuf y /\ s_unsent y = 0).
+  { intros k y Lk. split; [eapply P2; eauto|].
+    assert (Hin : In k (keys (send s))) by (rewrite <- E6, <- F6; eapply lookup_in_keys; eauto).
+    destruct (i_keys _ _ I k Hin) as (K2 & K3).
+    destruct (Z.eq_dec (id_init k) (side s)) as [El|El].
+    - specialize (K3 El). pose proof (sid_decompose k K2) as Hd. rewrite El, Hsd in Hd.
+      assert (0 <= id_index k) by (unfold id_index; lia).
+      unfold get_next in K3.
+      assert (id_dir k = 0 \/ id_dir k = 1) as [Ed|Ed] by (unfold id_dir; lia); rewrite Ed in *;
+        red_eqb_in K3; cbv iota in K3.
+      + (* bidirectional: visited by the first pass, untouched by the second *)
+        rewrite A2 in Lk by (intros i Hi E; rewrite Hd in E; unfold sid in E; lia).
+        rewrite Hd in Lk. apply (B1 (id_index k) y); [lia|exact Lk].
+      + rewrite Hd in Lk. apply (B2 (id_index k) y); [rewrite E4; lia|exact Lk].
+    - exfalso.
+      rewrite A2 in Lk by (intros i Hi E; subst k; rewrite id_init_sid in El; lia).
+      rewrite A1 in Lk by (intros i Hi E; subst k; rewrite id_init_sid in El; lia).
+      specialize (M1 _ _ Lk El). discriminate. }
+  unfold HInv. autorewrite with st.
+  constructor; unfold get_next; autorewrite with st.
+  - intros k y Lk. destruct (Hz k y Lk). apply bufok_dead_early; assumption.
+  - intros k i a b fin Hl. destruct (live_dead _ _ _ Hl).
+  - rewrite F2, E2, U2, U1. exact (h_usum _ _ _ H).
+  - intros _ k y Lk. destruct (Hz k y Lk) as ((X1 & X2 & X3 & _) & _). auto.
+Qed.
